@@ -126,7 +126,7 @@ def context_key(text, kind, row):
 
 def run(tier, work):
     v = C.Verdict("C06", tier, work)
-    rng = C.rng(6)
+    rng = C.tier_rng(tier, 6)
     stats = dict(states=0, transitions=0)
     summary = rows_layer(work, v, stats, 4 if tier == "quick" else 5, 1 if tier == "quick" else 2)
 
